@@ -64,10 +64,20 @@ type c09Env struct {
 	canon []ociauth.Scope
 	text  []ociauth.Scope // built by ParseScope (retains original text)
 	dirty uint32          // elements with empty or separator-bearing fields
+	alt   bool            // not a prefix of c09UniverseFull (cases then carry the universe)
 }
 
-func newC09Env(n int) *c09Env {
-	e := &c09Env{u: c09UniverseFull[:n]}
+func newC09Env(n int) *c09Env { return newC09EnvOf(c09UniverseFull[:n]) }
+
+func newC09EnvAlt(u []rs) *c09Env {
+	e := newC09EnvOf(u)
+	e.alt = true
+	return e
+}
+
+func newC09EnvOf(u []rs) *c09Env {
+	n := len(u)
+	e := &c09Env{u: u}
 	e.order = make([]int, n)
 	for i := range e.order {
 		e.order[i] = i
@@ -140,10 +150,14 @@ type c09Case struct {
 	N     int      `json:"universe"`
 	MA    uint32   `json:"mask_a"`
 	MB    uint32   `json:"mask_b"`
+	U     []rs     `json:"universe_elements,omitempty"` // set when the universe is not a prefix of the standard one
 }
 
 func (e *c09Env) mkCase(op string, a, b uint32, route string) c09Case {
 	c := c09Case{Op: op, Route: route, N: len(e.u), MA: a, MB: b}
+	if e.alt {
+		c.U = e.u
+	}
 	for _, r := range e.elems(a) {
 		c.A = append(c.A, rsText(r))
 	}
@@ -262,9 +276,83 @@ func c09Check(r *vcore.Run) vcore.Coverage {
 	}
 	e := newC09Env(n)
 	nsets := uint32(1) << n
+	var evals, nontrivial int64
+	e.runSets(r, nil, &evals, &nontrivial)
+	// further universes, explored the same way (every subset by every construction route, pairs as stated)
+	// (a) words that look like wildcards: the bare word "*" is an ordinary opaque scope, "*" as a repository
+	// name or resource type is an ordinary name
+	star := newC09EnvAlt([]rs{{ResourceType: "*"}, {ResourceType: "repository", Resource: "a", Action: "pull"}, {ResourceType: "registry", Resource: "catalog", Action: "*"},
+		{ResourceType: "*", Resource: "*", Action: "*"}, {ResourceType: "repository", Resource: "*", Action: "pull"}, {ResourceType: "registry", Resource: "*", Action: "*"}, {ResourceType: "**"}})
+	star.runSets(r, nil, &evals, &nontrivial)
+	// (b) many repositories: eleven repositories with pull, two of them with push as well; pairs of a
+	// large scope (at least nine repositories) with a small one (at most three elements), both ways round
+	var many []rs
+	for i := 0; i < 11; i++ {
+		many = append(many, rs{ResourceType: "repository", Resource: fmt.Sprintf("r%02d", i), Action: "pull"})
+	}
+	many = append(many, rs{ResourceType: "repository", Resource: "r05", Action: "push"}, rs{ResourceType: "repository", Resource: "r02", Action: "push"})
+	big := newC09EnvAlt(many)
+	big.runSets(r, func(a, b uint32) bool {
+		la, lb := bits.OnesCount32(a&0x7ff), bits.OnesCount32(b)
+		lb2, la2 := bits.OnesCount32(b&0x7ff), bits.OnesCount32(a)
+		return (la >= 9 && lb <= 3) || (lb2 >= 9 && la2 <= 3)
+	}, &evals, &nontrivial)
+	// results are values: a later Union on the same receiver must not change an earlier result
+	// (all triples over a sub-universe; receivers are private to the worker so a shared backing
+	// array shows deterministically)
+	// two sub-universes: the five members of the "others" list plus one repository action, and the
+	// repository-shaped elements (two repositories x two actions, the catalog, one unknown action);
+	// thorough: one 8-element sub-universe on top
+	subs := [][]int{{4, 5, 6, 7, 8, 0}, {0, 1, 2, 9, 3, 5}}
+	if r.Thorough() {
+		subs = append(subs, []int{0, 1, 2, 9, 4, 5, 6, 7})
+	}
+	var triples int64
+	for _, tIdx := range subs {
+		tIdx := tIdx
+		expand := func(t uint32) (m uint32) {
+			for k, i := range tIdx {
+				if t&(1<<k) != 0 {
+					m |= 1 << i
+				}
+			}
+			return m
+		}
+		tsets := uint32(1) << len(tIdx)
+		tmasks := make([]uint32, tsets)
+		for t := range tmasks {
+			tmasks[t] = expand(uint32(t))
+		}
+		vcore.ParallelN(int(tsets), func(i int) {
+			n := e.checkTriples(r, tmasks[i], tmasks)
+			atomic.AddInt64(&triples, n)
+		})
+	}
+	evals += triples
+	r.Notes["union_triples"] = triples
+	r.Notes["union_triples_subuniverses"] = subs
+	r.Sample("pair", e.mkCase("pair", 0b00010011, 0b00100110, ""))
+	r.Sample("universe", func() []string {
+		var s []string
+		for _, u := range e.u {
+			s = append(s, rsText(u))
+		}
+		return s
+	}())
+	r.Assume = []string{"data values are drawn from a universe chosen from the code's branches (known/unknown actions, catalog sentinel, empty repository name, opaque word, unknown type); other strings are not explored"}
+	return vcore.Coverage{Evaluations: evals, Nontrivial: nontrivial, Exhaustive: true,
+		Rule:  fmt.Sprintf("all %d subsets of a %d-element universe built by every construction route, and all %d ordered pairs for Union/Contains/Equal; non-trivial pair = overlapping and neither contains the other (distinct by construction)", nsets, n, uint64(nsets)*uint64(nsets)),
+		Extra: map[string]any{"universe_size": n, "subsets": nsets},
+	}
+}
+
+// runSets explores one universe: every subset by every construction route with the unary laws, the
+// unlimited scope against every subset, and every ordered pair (that pairFilter admits, if given).
+func (e *c09Env) runSets(r *vcore.Run, pairFilter func(a, b uint32) bool, evals, nontrivial *int64) {
+	n := len(e.u)
+	nsets := uint32(1) << n
 	e.canon = make([]ociauth.Scope, nsets)
 	e.text = make([]ociauth.Scope, nsets)
-	var evals, nontrivial int64
 	// construction routes + unary laws
 	vcore.ParallelN(int(nsets), func(i int) {
 		m := uint32(i)
@@ -332,7 +420,7 @@ func c09Check(r *vcore.Run) vcore.Coverage {
 			e.checkScope(r, ociauth.ParseScope(strings.Join(words, "  ")), m, "ParseScope(comma actions)")
 			ev++
 		}
-		atomic.AddInt64(&evals, ev)
+		atomic.AddInt64(evals, ev)
 	})
 	// unlimited and zero value
 	r.Guard("unary", "C09/unlimited", "unlimited", func() {
@@ -365,62 +453,18 @@ func c09Check(r *vcore.Run) vcore.Coverage {
 		a := uint32(i)
 		var ev, nt int64
 		for b := uint32(0); b < nsets; b++ {
+			if pairFilter != nil && !pairFilter(a, b) {
+				continue
+			}
 			e.checkPair(r, a, b)
 			ev++
 			if a&b != 0 && a&^b != 0 && b&^a != 0 {
 				nt++
 			}
 		}
-		atomic.AddInt64(&evals, ev)
-		atomic.AddInt64(&nontrivial, nt)
+		atomic.AddInt64(evals, ev)
+		atomic.AddInt64(nontrivial, nt)
 	})
-	// results are values: a later Union on the same receiver must not change an earlier result
-	// (all triples over a sub-universe; receivers are private to the worker so a shared backing
-	// array shows deterministically)
-	// two sub-universes: the five members of the "others" list plus one repository action, and the
-	// repository-shaped elements (two repositories x two actions, the catalog, one unknown action);
-	// thorough: one 8-element sub-universe on top
-	subs := [][]int{{4, 5, 6, 7, 8, 0}, {0, 1, 2, 9, 3, 5}}
-	if r.Thorough() {
-		subs = append(subs, []int{0, 1, 2, 9, 4, 5, 6, 7})
-	}
-	var triples int64
-	for _, tIdx := range subs {
-		tIdx := tIdx
-		expand := func(t uint32) (m uint32) {
-			for k, i := range tIdx {
-				if t&(1<<k) != 0 {
-					m |= 1 << i
-				}
-			}
-			return m
-		}
-		tsets := uint32(1) << len(tIdx)
-		tmasks := make([]uint32, tsets)
-		for t := range tmasks {
-			tmasks[t] = expand(uint32(t))
-		}
-		vcore.ParallelN(int(tsets), func(i int) {
-			n := e.checkTriples(r, tmasks[i], tmasks)
-			atomic.AddInt64(&triples, n)
-		})
-	}
-	evals += triples
-	r.Notes["union_triples"] = triples
-	r.Notes["union_triples_subuniverses"] = subs
-	r.Sample("pair", e.mkCase("pair", 0b00010011, 0b00100110, ""))
-	r.Sample("universe", func() []string {
-		var s []string
-		for _, u := range e.u {
-			s = append(s, rsText(u))
-		}
-		return s
-	}())
-	r.Assume = []string{"data values are drawn from a universe chosen from the code's branches (known/unknown actions, catalog sentinel, empty repository name, opaque word, unknown type); other strings are not explored"}
-	return vcore.Coverage{Evaluations: evals, Nontrivial: nontrivial, Exhaustive: true,
-		Rule:  fmt.Sprintf("all %d subsets of a %d-element universe built by every construction route, and all %d ordered pairs for Union/Contains/Equal; non-trivial pair = overlapping and neither contains the other (distinct by construction)", nsets, n, uint64(nsets)*uint64(nsets)),
-		Extra: map[string]any{"universe_size": n, "subsets": nsets},
-	}
 }
 
 func (e *c09Env) checkPair(r *vcore.Run, a, b uint32) {
@@ -550,7 +594,11 @@ func c09Replay(r *vcore.Run, sub string, raw json.RawMessage) {
 		fmt.Println("replay: case has no masks; re-run the check")
 		return
 	}
-	e := newC09Env(c.N)
+	e := newC09Env(min(c.N, len(c09UniverseFull)))
+	if len(c.U) > 0 {
+		e = newC09EnvOf(c.U)
+		c.N = len(c.U)
+	}
 	nsets := uint32(1) << c.N
 	e.canon = make([]ociauth.Scope, nsets)
 	e.text = make([]ociauth.Scope, nsets)
